@@ -319,3 +319,14 @@ func init() {
 		}
 	}
 }
+
+func init() {
+	exploreExtra["sharedappend"] = func(p *Prog) {
+		c := NewCtx(p, "X", "quick")
+		c.quiet = true
+		ruleSharedAppend(c, "SHARED-APPEND", p.ModulePkgs())
+		for _, o := range c.Obls {
+			fmt.Printf("%s\t%s\t%v\n", o.Pos, o.Instance, o.OK)
+		}
+	}
+}
